@@ -85,9 +85,13 @@ def run_grid(case):
             prog = make_prog(oneoff, uc, capc, sat)
             spec = pr_spec(oneoff, uc, capc, sat)
             for s in SPEND:
-                sp = np.array([s])
+                sp = np.array([float(s)])
                 cap = prog.get_capacity(tvec=np.array([t]), spending=sp, dt=dt)
                 capv = float(np.asarray(cap).ravel()[0])
+                # the caller's spending vector is an input: evaluating it again (same array) must give the same capacity and leave it alone
+                cap_again = float(np.asarray(prog.get_capacity(tvec=np.array([t]), spending=sp, dt=dt)).ravel()[0])
+                if sp[0] != float(s) or cap_again != capv:
+                    vs.append(V("capacity-evaluation-not-pure", f"oneoff={oneoff} uc={uc} cap={capc} dt={dt!r}: spending array [{float(s)}] is {sp.tolist()} after two evaluations, capacities {capv!r} then {cap_again!r}", None))
                 ref_cap = refprog.prog_capacity(spec, s, t, dt)
                 if abs(capv - ref_cap) > 1e-12 * max(1.0, abs(ref_cap)):
                     vs.append(V("capacity-formula", f"oneoff={oneoff} uc={uc} cap={capc} dt={dt!r} spend={s}: capacity {capv!r}, documented {ref_cap!r}", None))
